@@ -107,9 +107,23 @@ def devs_file():
     return p
 
 
+def empty_devs_file():
+    p = os.path.join(os.environ.get('VERIF_TMP', '/tmp'), 'verif-nodevs-%d.ndjson' % os.getpid())
+    open(p, 'w').close()
+    return p
+
+
 def validate_trace(path, wd, timeout=600, module='BusTrace.tla', cfg='BusTrace.cfg'):
-    """returns None if accepted, else the 1-based rejected line number"""
-    rc, out = tlc(wd, module, cfg, timeout, env={'TRACE': path, 'VERIF_DEVS': devs_file()}, workers=1)
+    """returns None if accepted, else (line, ops applied).  First without any known-defect deviation; only a
+    trace the plain specification rejects is tried again with the deviations of the open known findings."""
+    r = _validate_trace(path, wd, timeout, module, cfg, empty_devs_file())
+    if r is None:
+        return None
+    return _validate_trace(path, wd, timeout, module, cfg, devs_file())
+
+
+def _validate_trace(path, wd, timeout, module, cfg, devs):
+    rc, out = tlc(wd, module, cfg, timeout, env={'TRACE': path, 'VERIF_DEVS': devs}, workers=1)
     for m in re.finditer(r'"DEVS_USED", \{([^}]*)\}', out):
         for d in re.findall(r'"([^"]+)"', m.group(1)):
             DEVS_USED.add(d)
